@@ -43,6 +43,30 @@ def check_typing(ctx, case):
             break
         if (starts[0] + r) % n + 1 > n - 3:
             wrapped = True
+    # an annotated plasmid: a feature inside the target keeps its identifier (SeqFeature.id) in the target, wherever the
+    # file starts — also when the cut happens to sit on the origin and nothing has to be rotated
+    if base[0] == "valid" and len(base[3]) >= 3 and n >= 4:
+        from wire import Feat, CRec
+        p_ = (wd.upper() + wd.upper()).find(base[3].upper())
+        if 0 <= p_ < n and gen.circ_count(wd.upper(), base[3].upper()) == 1 and len(base[3]) < n:
+            f0 = [Feat(1, "u1", (), (((p_ + 1) % n, (p_ + 1) % n + 1, 1),))]
+            seen_ids = {}
+            for r in rots:
+                rec_ = impl.mk_record(CRec(0, gen.rot(wd, r), gen.rotate_feats(f0, n, r), []))
+                rec_.features[0].id = "F1"
+                try:
+                    tf = cls(rec_).target_sequence().features
+                except Exception:  # noqa   (reported by the evaluations above)
+                    continue
+                seen_ids[r] = sorted(str(f_.id) for f_ in tf if f_.type != "source")
+            odd = [r for r, ids_ in seen_ids.items() if ids_ != ["F1"]]
+            if odd and len(odd) < len(seen_ids):
+                ctx.fail("{} on {!r}: the feature 'F1' inside the target keeps its identifier at rotations {} but comes out as "
+                         "{} at rotation {}".format(cls.__name__, wd, [r for r in seen_ids if r not in odd][:4],
+                                                    seen_ids[odd[0]], odd[0]), dict(case, rots=[odd[0]]))
+            elif odd:
+                ctx.fail("{} on {!r}: the feature 'F1' inside the target comes out of target_sequence() as {}".format(
+                    cls.__name__, wd, seen_ids[odd[0]]), dict(case, rots=[odd[0]]))
     # a circular record may say so, in any letter case: nothing changes, at any rotation
     for topo in ("circular", "Circular", "CIRCULAR"):
         r = rots[len(rots) // 2] if rots else 0
